@@ -160,6 +160,24 @@ def check_flag_persistence(model, rep, flag):
             for ev in rp.pre:
                 if ev.kind == 'selfstore' and ev.raw[2] == flag:
                     bad = ev
+    # run() itself may only ever assign the constant False (a fresh start is unlocked)
+    wrong = None
+    for rp in rm.paths:
+        for ev in rp.pre:
+            if ev.kind == 'selfstore' and ev.raw[2] == flag and not (isinstance(ev.raw[3], Bv) and ev.raw[3].b is False):
+                wrong = ev
+    rep.decide(wrong is None, 'C13.only-if', 'Solver.run:initial-flag',
+               'Solver.run initialises the lock flag with something other than False: a powertrain without a self-locking mating '
+               'would start clamped', loc=f'{rm.member.module}:{wrong.lineno if wrong else rm.member.node.lineno}')
+    # the lock decision needs the CURRENT motor speed: it must follow the propagation of the instant
+    from checks.solver_common import instant_order_findings
+    seen = set()
+    for name, rp, events in rm.instants():
+        for kind, text, a, b, attr in instant_order_findings(rm, events):
+            if any(t.startswith('selfcall:') for t in classify(rm, a)) and (a.text, b.text, attr) not in seen:
+                seen.add((a.text, b.text, attr))
+                rep.violation('C13.clamp', f'{a.text}|{b.text}|{attr}', 'the lock decision uses a stale value: ' + text,
+                              f'{rm.member.module}:{a.lineno}')
     rep.decide(bad is None, 'C13.only-if', 'Solver.run:flag-on-continuation',
                'a continued run resets the lock flag before stepping: a powertrain held by self-locking under overload is '
                'released by every further run() call', loc=f'{rm.member.module}:{bad.lineno if bad else rm.member.node.lineno}')
